@@ -45,6 +45,10 @@ def MediaSegmentBuilder.build (b : MediaSegmentBuilder) : Res MediaSegment :=
          b.has_discontinuity.getD false, b.program_date_time, d, u⟩
   | _, _ => .err
 
+/-- `MediaSegmentBuilder::number(Option<usize>)`: stores the value and whether a number was given -/
+def MediaSegmentBuilder.setNumber (b : MediaSegmentBuilder) (v : Option Nat) : MediaSegmentBuilder :=
+  { b with number := v, explicit_number := some v.isSome }
+
 /-- `Display for MediaSegment` as typed lines (keys are printed by the playlist) -/
 def MediaSegment.writeLines (s : MediaSegment) : List Line :=
   (match s.map with
